@@ -21,8 +21,11 @@ Two kinds of scenarios, each run on the implementation (harness/sim.py cluster) 
        step, all-gather logs, process-group creations and the hung ranks exactly); per rank C08_fs_agree (structure);
        C08_hybrid_checkb (every replica = the FullyShard-only run of its shard coordinate after every step, equal
        collective sequences per comms group, identical creations on all ranks, nobody left waiting).
-Starving histories (a rank of a comms group with owned blocks but none with a gradient while a peer has one) are the
-known finding C08:rank-starvation (DESIGN section 6, F6); the signature is computed from the INPUT.
+Gradient histories: absent gradients (several patterns), and PRESENT gradients that are exactly ZERO on the rows of one
+rank's local shard, on the whole tensor, or for every parameter of a step - after dense steps and before a dense one, with
+configurations in which a zero gradient matters (beta1 > 0, momentum, weight decay, beta2 < 1): present is `grad is not None`.
+Starving histories (a rank of a comms group with owned blocks but none with a gradient while a peer has one; DESIGN section 6,
+F6 - repaired in /repo) are ordinary scenarios that must pass; the signature is still computed from the INPUT for the evidence.
 Python only generates inputs, runs the implementation and reads T/F.
 """
 from __future__ import annotations
@@ -143,6 +146,10 @@ def make_tensors(spec):
             t = torch.randn(tuple(sh), generator=g)     # drawn even when absent
             row.append(t if p else None)
         grads.append(row)
+    # present gradients that are exactly ZERO on a range of rows (a whole local shard, or the whole tensor): still present
+    for t, j, lo, hi in spec.get("zeros", []):
+        if grads[t][j] is not None:
+            grads[t][j][lo:hi] = 0.0
     return init, grads
 
 
@@ -546,6 +553,51 @@ def gen_presence(rng, kind, nparams, T):
     raise ValueError(kind)
 
 
+ZERO_OPTS = ["shampoo_adam", "soap", "shampoo_momentum", "shampoo_rmsprop"]   # beta1 > 0 / momentum > 0 / weight decay > 0 / beta2 < 1
+
+
+def gen_zeros(rng, zkind, shapes, n, presence):
+    """Rows of PRESENT gradients set to exactly zero (list of [step, param, lo, hi]); `presence` is edited so that the
+    parameter has a dense non-zero gradient before the zero step(s) and again after them.
+      shard : the rows of one rank's (non-empty) local shard of one parameter, for one or two consecutive steps
+      whole : the whole gradient of one parameter at one step
+      step  : every parameter's gradient is present and entirely zero at one step (a serial step still counts)"""
+    T = len(presence)
+    t = rng.randrange(1, T - 1)
+    zeros = []
+    if zkind == "step":
+        presence[t] = [True] * len(shapes)
+        presence[t - 1] = [True] * len(shapes)
+        presence[t + 1] = [True] * len(shapes)
+        return [[t, j, 0, shapes[j][0]] for j in range(len(shapes))], t
+    j = rng.randrange(len(shapes))
+    rows = shapes[j][0]
+    if zkind == "shard":
+        cands = [r for r in range(n) if chunk_rows(rows, n, r)[1] > chunk_rows(rows, n, r)[0]]
+        lo, hi = chunk_rows(rows, n, rng.choice(cands))
+    else:
+        lo, hi = 0, rows
+    steps = [t] + ([t + 1] if (zkind == "shard" and t + 2 < T and rng.random() < 0.4) else [])
+    for tt in [t - 1] + steps + [steps[-1] + 1]:
+        presence[tt][j] = True
+    return [[tt, j, lo, hi] for tt in steps], t
+
+
+def zero_shard_events(spec):
+    """(rank/shard coordinate, step, parameter) triples where a present gradient is exactly zero on a non-empty local shard
+    that had a non-zero gradient at an earlier step - measured from the input, for the evidence."""
+    n = spec["n"] if spec["kind"] == "fs" else spec["S"]
+    ev = set()
+    for t, j, lo, hi in spec.get("zeros", []):
+        if not spec["presence"][t][j]:
+            continue
+        for r in range(n):
+            a, b = chunk_rows(spec["shapes"][j][0], n, r)
+            if b > a and lo <= a and b <= hi and any(spec["presence"][u][j] and not any(z[0] == u and z[1] == j for z in spec["zeros"]) for u in range(t)):
+                ev.add((r, t, j))
+    return sorted(ev)
+
+
 def choose_shapes(rng, n, every_rank_works, min_blocks=1):
     """3..6 parameters; at least one has fewer rows than n when n > 1 (empty local shards); when `every_rank_works` every
     rank gets at least `min_blocks` blocks (HybridShard: one per group rank)."""
@@ -576,8 +628,9 @@ def gen_scenarios(ck: Check):
     thorough = ck.tier == "thorough"
     opts = list(OPT_CONFIGS)
     kinds = ["random", "late", "full", "none_step", "one_absent", "random"]
+    zkinds = ["shard", "whole", "shard", "step"]
     specs = []
-    k = 0
+    k = zc = 0
     # ---- FullyShard
     for n in (range(1, 9) if thorough else range(1, 5)):
         for v in range(24 if thorough else 9):
@@ -588,8 +641,14 @@ def gen_scenarios(ck: Check):
                 shapes = [sh for sh in shapes if sh[0] < n] or [(1,), (max(1, n - 1), 2)]
             T = rng.randint(4, 6)
             kind = kinds[(k + rng.randrange(2)) % len(kinds)]
-            specs.append({"kind": "fs", "n": n, "shapes": [list(s) for s in shapes], "maxdim": maxdim, "merge": merge, "opt": opts[k % len(opts)],
-                          "presence": gen_presence(rng, kind, len(shapes), T), "pkind": kind, "seed": rng.randrange(1 << 30)})
+            spec = {"kind": "fs", "n": n, "shapes": [list(s) for s in shapes], "maxdim": maxdim, "merge": merge, "opt": opts[k % len(opts)],
+                    "presence": gen_presence(rng, kind, len(shapes), T), "pkind": kind, "seed": rng.randrange(1 << 30), "zeros": [], "zkind": "none"}
+            if v % 5 in (1, 3):
+                spec["zkind"] = zkinds[zc % len(zkinds)]
+                zc += 1
+                spec["zeros"], _ = gen_zeros(rng, spec["zkind"], spec["shapes"], n, spec["presence"])
+                spec["opt"] = ZERO_OPTS[k % len(ZERO_OPTS)]
+            specs.append(spec)
             k += 1
     # ---- HybridShard
     meshes = [(1, 2), (2, 1), (2, 2), (3, 1), (2, 3), (4, 1)]
@@ -603,11 +662,18 @@ def gen_scenarios(ck: Check):
                 shapes, maxdim, merge = choose_shapes(rng, S, True, min_blocks=gs)
                 T = rng.randint(4, 6)
                 kind = kinds[(k + rng.randrange(2)) % len(kinds)]
-                specs.append({"kind": "hy", "R": R, "S": S, "gs": gs, "gs_default": bool(gs == R and rng.random() < 0.5), "cp": cp,
-                              "cdtype": "DEFAULT" if (dt == "FP32" and rng.random() < 0.3) else dt,
-                              "shapes": [list(s) for s in shapes], "maxdim": maxdim, "merge": merge, "opt": opts[k % len(opts)],
-                              "presence": gen_presence(rng, kind, len(shapes), T), "pkind": kind, "seed": rng.randrange(1 << 30)})
+                spec = {"kind": "hy", "R": R, "S": S, "gs": gs, "gs_default": bool(gs == R and rng.random() < 0.5), "cp": cp,
+                        "cdtype": "DEFAULT" if (dt == "FP32" and rng.random() < 0.3) else dt,
+                        "shapes": [list(s) for s in shapes], "maxdim": maxdim, "merge": merge, "opt": opts[k % len(opts)],
+                        "presence": gen_presence(rng, kind, len(shapes), T), "pkind": kind, "seed": rng.randrange(1 << 30), "zeros": [], "zkind": "none"}
+                if v % 5 in (1, 3):
+                    spec["zkind"] = zkinds[zc % len(zkinds)]
+                    zc += 1
+                    spec["zeros"], _ = gen_zeros(rng, spec["zkind"], spec["shapes"], S, spec["presence"])
+                    spec["opt"] = ZERO_OPTS[k % len(ZERO_OPTS)]
+                specs.append(spec)
                 k += 1
+    specs.append(ZERO_SHARD_MINIMAL)
     specs.append(F6_MINIMAL)
     return specs
 
@@ -616,6 +682,13 @@ def gen_scenarios(ck: Check):
 # (owners 0,1,0), a step where parameter 1 (the only block of group rank 1) has no gradient
 F6_MINIMAL = {"kind": "hy", "R": 2, "S": 1, "gs": 2, "gs_default": True, "cp": False, "cdtype": "FP32", "shapes": [[4], [4], [4]], "maxdim": 4,
               "merge": True, "opt": "shampoo_adagrad", "presence": [[True, True, True], [True, False, True], [True, True, True]], "pkind": "starve", "seed": 7}
+
+
+# a present gradient whose rows 4..7 (rank 1's shard of parameter 0) are exactly zero at step 2, after two dense steps and
+# before a dense one; rank 1 has no row of the last parameter; beta1 > 0, weight decay > 0
+ZERO_SHARD_MINIMAL = {"kind": "fs", "n": 2, "shapes": [[8, 4], [6, 4], [1, 4]], "maxdim": 4, "merge": True, "opt": "shampoo_adam",
+                      "presence": [[True, True, True], [True, False, True], [True, True, True], [True, True, False]], "pkind": "random", "seed": 11,
+                      "zeros": [[2, 0, 4, 8]], "zkind": "shard"}
 
 
 def work_item(args):
@@ -672,7 +745,7 @@ def describe(spec):
         head = f"FullyShard n={spec['n']}"
     else:
         head = (f"HybridShard mesh {spec['R']}x{spec['S']} num_trainers_per_group={spec['gs']} communicate_params={spec['cp']} {spec['cdtype']}")
-    return f"{head} shapes={spec['shapes']} max_preconditioner_dim={spec['maxdim']} use_merge_dims={spec['merge']} {spec['opt']} presence={spec['presence']}"
+    return f"{head} shapes={spec['shapes']} max_preconditioner_dim={spec['maxdim']} use_merge_dims={spec['merge']} {spec['opt']} presence={spec['presence']} zero_rows[step,param,lo,hi]={spec.get('zeros', [])}"
 
 
 def run(ck: Check) -> None:
@@ -733,7 +806,7 @@ def run(ck: Check) -> None:
             else:
                 why = "replicas differ / differ from the FullyShard-only run, collective sequences differ inside a comms group, creations differ, or a rank is left waiting"
             # attributed to the known starvation defect only when the model (which has the defect) predicts exactly this run
-            (starv if (starves and r["agree"]) else other).append((r, why))
+            (starv if (starves and r["agree"] and not GLOBAL_SKIP) else other).append((r, why))    # F6 repaired: nothing is attributed to it any more
         if not r["agree"] and r["check"] and not r["errors"]:
             corr.append(r)        # the code behaves differently from the model but the property still holds on this observation
 
@@ -789,6 +862,9 @@ def run(ck: Check) -> None:
             "hybrid_group_size": hist(lambda r: r["spec"]["gs"], hy),
             "communicate_params": hist(lambda r: r["spec"]["cp"], hy), "communication_dtype": hist(lambda r: r["spec"]["cdtype"], hy),
             "optimizer": hist(lambda r: r["spec"]["opt"]), "presence_kind": hist(lambda r: r["spec"]["pkind"]),
+            "zero_gradient_kind": hist(lambda r: f"{r['spec']['kind']}:{r['spec'].get('zkind', 'none')}"),
+            "present_gradient_exactly_zero_on_a_local_shard_after_a_nonzero_one (rank,step,param triples)": sum(len(zero_shard_events(r["spec"])) for r in evaluated),
+            "scenarios_with_such_a_zero_shard": sum(1 for r in evaluated if zero_shard_events(r["spec"])),
             "use_merge_dims": hist(lambda r: r["spec"]["merge"]), "max_preconditioner_dim": hist(lambda r: r["spec"]["maxdim"]),
             "steps": hist(lambda r: len(r["spec"]["presence"])), "params": hist(lambda r: len(r["spec"]["shapes"])),
             "tensor_orders": hist(lambda r: sorted({len(s) for s in r["spec"]["shapes"]})),
@@ -808,7 +884,9 @@ def run(ck: Check) -> None:
         "FullyShard values are tied to the single-process IMPLEMENTATION run on the local tensors (bit-exact), not recomputed in Coq",
         "every rank has at least one non-empty local shard, except in the scenarios that exercise the constructor assertion",
     ]
-    ck.notes.append(f"expected on the unchanged tree: KNOWN-FINDING {SIG_STARVATION} (DESIGN §6 F6 through the HybridShard copy of update_params)")
+    ck.notes.append("F6 (rank starvation) is repaired in /repo (1e81303): starving histories are ordinary scenarios now and must pass; "
+                    "gradient histories include PRESENT gradients that are exactly zero on a rank's local shard / on the whole tensor / for a whole step "
+                    "(the model's selector is `p.grad is not None`, and the serial run does not ignore a zero gradient)")
 
 
 def replay(obj) -> bool:
